@@ -32,7 +32,9 @@ F_SCAN = 'C20-scan-lexicons-raw-attribute-text'
 F_NOLEX = 'C20-add-skips-validation-when-nothing-to-add'
 LEXTAG = re.compile(rb'<(Lexicon|LexiconExtension)\b[^>]*>')
 RULE = ('one case = one sampled valid WN-LMF file (versions 1.0-1.3, both quoting styles, '
-        'escaped characters in id/version/label) installed next to an already populated '
+        'escaped characters in id/version/label; half of them with lexical style variations: '
+        'shuffled attributes, mixed quoting, CDATA, character references, comments holding '
+        'fake <Lexicon> tags) installed next to an already populated '
         'database. ENUMERATED per case: truncation at every byte offset (every offset near '
         'both ends, strided in the middle of files > 4 kB), each tag dropped and each tag '
         'duplicated (first 60 tags), 12 header variants, gzip/xz/tar containers truncated at 8 '
@@ -92,9 +94,15 @@ def header_variants(data: bytes):
 def structural_mutants(text: str, version: str):
     """(name, mutated text) — each a single named structural fault; all must be rejected."""
     out = []
+    spans = [(m.start(), m.end()) for m in re.finditer(r'<!--.*?-->|<!\[CDATA\[.*?\]\]>',
+                                                       text, re.S)]
+
+    def live(m):
+        return not any(a <= m.start() < b for a, b in spans)
 
     def each_tag(name, limit=2):
-        return [m for m in re.finditer(r'<%s(?=[\s/>])[^<>]*?/?>' % name, text)][:limit]
+        return [m for m in re.finditer(r'<%s(?=[\s/>])[^<>]*?/?>' % name, text)
+                if live(m)][:limit]
 
     ident = {
         'Lexicon': ['id', 'version'], 'LexiconExtension': ['id', 'version'],
@@ -135,19 +143,21 @@ def structural_mutants(text: str, version: str):
                         + text[m.end():end] + '</%sX>' % elem + text[end + len(elem) + 3:]))
     # single-valued children duplicated
     for elem in ['Lemma', 'ILIDefinition', 'Extends', 'ExternalLemma']:
-        m = re.search(r'[ \t]*<%s(?=[\s/>])[^<>]*?/>\n' % elem, text)
+        m = next((x for x in re.finditer(r'[ \t]*<%s(?=[\s/>])[^<>]*?/>\n' % elem, text)
+                  if live(x)), None)
         if m is None:
-            m = re.search(r'[ \t]*<%s(?=[\s/>])[^<>]*?>.*?</%s>\n' % (elem, elem), text, re.S)
+            m = next((x for x in re.finditer(r'[ \t]*<%s(?=[\s/>])[^<>]*?>.*?</%s>\n'
+                                             % (elem, elem), text, re.S) if live(x)), None)
         if m is not None:
             out.append(('dup-' + elem, text[:m.end()] + m.group(0) + text[m.end():]))
     # >= 1.1 elements in a 1.0 document
     if version == '1.0':
-        m = re.search(r'(<Lemma[^<>]*?)/>', text)
+        m = next((x for x in re.finditer(r'(<Lemma[^<>]*?)/>', text) if live(x)), None)
         if m:
             out.append(('1.1-elem-in-1.0:Pronunciation',
                         text[:m.start()] + m.group(1) + '><Pronunciation>x</Pronunciation></Lemma>'
                         + text[m.end():]))
-        m = re.search(r'<Lexicon[^<>]*?>\n', text)
+        m = next((x for x in re.finditer(r'<Lexicon(?=[\s>])[^<>]*?>\n', text) if live(x)), None)
         if m:
             out.append(('1.1-elem-in-1.0:Requires',
                         text[:m.end()] + '    <Requires id="q" version="1"/>\n' + text[m.end():]))
@@ -223,7 +233,7 @@ def run_one(seed, tier, explicit=None):
     compare.ENABLED_FINDINGS.clear()
     compare.ENABLED_FINDINGS.update(enabled_findings())
     tgt = None
-    quote, indent = '"', True
+    quote, indent, style = '"', True, None
     try:
         try:
             # a populated database that must not change
@@ -247,9 +257,15 @@ def run_one(seed, tier, explicit=None):
             pre = observe.raw_dump(sim.W.dbpath())
             quote = prng.choice(['"', "'"])
             indent = prng.random() < 0.8
+            style = None
+            if prng.random() < 0.5:
+                style = {'seed': prng.randint(0, 10 ** 6), 'shuffle_attrs': prng.random() < 0.5,
+                         'cdata': prng.random() < 0.4, 'comments': prng.random() < 0.5,
+                         'charrefs': prng.random() < 0.3, 'mixed_quotes': prng.random() < 0.3}
             if explicit:
-                quote, indent = explicit['quote'], explicit['indent']
-            data = xmlout.resource_xml(u, tgt, quote=quote, indent=indent)
+                quote, indent, style = explicit['quote'], explicit['indent'], \
+                    explicit.get('style')
+            data = xmlout.resource_xml(u, tgt, quote=quote, indent=indent, style=style)
             text = data.decode('utf-8')
             wd = sim.W.workdir('c20')
             counter = [0]
@@ -414,7 +430,7 @@ def run_one(seed, tier, explicit=None):
                        'lmf_version': tgt and tgt['lmf_version'], 'mutant_kinds': stats['kinds']},
             'replay': {'universe': u, 'target': tgt and tgt['name'], 'pre_added': pre_added,
                        'quote': quote if tgt else '"', 'indent': indent if tgt else True,
-                       'mutant': mutant},
+                       'style': style, 'mutant': mutant},
         }
     finally:
         sim.close()
